@@ -366,3 +366,14 @@ pub fn phi_w<T: Sc>(spec: &ModelSpec, x: &DVector<T>, w: Option<&DVector<T>>, al
     }
     p
 }
+
+/// Below this magnitude a singular value of the weighted basis matrix is not represented (and
+/// cannot be divided by) with the full relative precision of the scalar width: the smallest
+/// normal number divided by the unit round-off (f32: ~2e-31, f64: ~2e-292). Around the final
+/// parameters (5117, 357) of a Gaussian far from the data every basis value is an f32
+/// *subnormal* with one or two significant bits, the coefficient is ~1e37, and relative
+/// errors of several percent are the arithmetic's, not the library's. Toleranced comparisons
+/// are gated there (bitwise ones are unaffected).
+pub fn underflow_range<T: Sc>() -> f64 {
+    T::tiny() / (2.0 * T::u() * T::u())
+}
